@@ -79,7 +79,10 @@ def obs_strs(ev, rid=0):
             aux.append(f'sleep {int(o[1])}')
         elif k == 'reused-instance':
             main.append(f'REUSED-NODE-INSTANCE {o[1]}')
-    for idx, st in ev.get('done', []):
+    for d in ev.get('done', []):
+        idx, st = d[0], d[1]
+        if len(d) > 2 and d[2] != rid:
+            continue
         if st[0] == 'ok':
             aux.append(f'done {idx} ok')
         elif st[0] == 'exc':
@@ -100,20 +103,31 @@ def split_model(obs):
     return main, sorted(aux)
 
 
-def trace_lines(tr):
-    """driver input lines for one trace"""
-    lines = ['reset', json.dumps({'graph': tr['graph'], 'spec': tr['spec'],
+def _belongs(ev, rid):
+    if ev['k'] == 'gate':
+        return ev['g'][0] == rid
+    return ev.get('rid', 0) == rid
+
+
+def trace_lines(tr, rid=0):
+    """driver input lines for one run of a trace (events of other, overlapping runs are invisible to it)"""
+    spec = tr['spec']
+    if tr.get('inputs'):
+        spec = dict(spec)
+        spec['input_kwargs'] = tr['inputs'][rid]
+    lines = ['reset', json.dumps({'graph': tr['graph'], 'spec': spec,
                                   'pools_missing': bool(tr.get('pools_missing'))})]
-    evs = [e for e in tr['events'] if e['k'] != 'init'] + list(tr.get('after', []))
-    res = tr['results'][0] if tr['results'] else None
+    evs = [e for e in tr['events'] if e['k'] != 'init' and _belongs(e, rid)] + \
+          [e for e in tr.get('after', []) if _belongs(e, rid)]
+    res = tr['results'][rid] if tr['results'] else None
     for ev in evs:
         if ev['k'] == 'step':
-            _, _, topo = obs_strs(ev)
+            _, _, topo = obs_strs(ev, rid)
             pick = None
             for o in ev['obs']:
                 if o[0] == 'emit' and o[1] == 'pcomplete' and o[4][0] == 'error':
                     pick = o[4][1]
-            if pick is None and res and res[0] == 'raised' and any(i == 0 for i, _ in ev.get('done', [])):
+            if pick is None and res and res[0] == 'raised' and any(d[0] == 0 for d in ev.get('done', [])):
                 pick = res[1]
             lines.append(json.dumps({'k': 'step', 't': ev['t'], 'topo': topo, 'pick': pick}))
         elif ev['k'] == 'gate':
@@ -126,10 +140,10 @@ def trace_lines(tr):
     return lines, evs
 
 
-def compare(tr, out):
-    """out = driver answers for trace_lines(tr) (without the reset / program answers).
+def compare(tr, out, rid=0):
+    """out = driver answers for trace_lines(tr, rid) (without the reset / program answers).
     returns None if model and implementation agree, else a dict describing the first divergence."""
-    _, evs = trace_lines(tr)
+    _, evs = trace_lines(tr, rid)
     cov = set()
     for i, ev in enumerate(evs):
         ans = json.loads(out[i])
@@ -137,7 +151,7 @@ def compare(tr, out):
             return {'at': i, 'event': ev, 'why': 'driver-error', 'model': ans}
         if not ans.get('en'):
             return {'at': i, 'event': ev, 'why': 'choice not enabled in the model', 'model': ans}
-        imain, iaux, _ = obs_strs(ev)
+        imain, iaux, _ = obs_strs(ev, rid)
         mmain, maux = split_model(ans.get('obs', []))
         if 'BAD-ORACLE' in mmain:
             return {'at': i, 'event': ev, 'why': 'launch order rejected by the model (not a topological order of the expected node set)',
@@ -145,25 +159,31 @@ def compare(tr, out):
         if imain != mmain or iaux != maux:
             return {'at': i, 'event': ev, 'why': 'observations differ', 'impl': imain + iaux, 'model': mmain + maux}
     end = json.loads(out[len(evs)])
-    want = outcome_str(tr['results'][0]) if tr['results'] and tr['results'][0] else None
+    want = outcome_str(tr['results'][rid]) if tr['results'] and tr['results'][rid] else None
     if end.get('outcome') != want:
         return {'at': len(evs), 'why': 'outcome differs', 'impl': want, 'model': end}
-    if tr['verdict'] == 'deadlock' and not end.get('stuck'):
+    if tr['verdict'] == 'deadlock' and want is None and not end.get('stuck'):
         return {'at': len(evs), 'why': 'implementation deadlocked, model is not stuck', 'model': end}
-    if tr['verdict'] == 'finished' and sorted(tr.get('leftover_tasks', [])) != sorted(end.get('not_done', [])):
-        return {'at': len(evs), 'why': 'leftover tasks differ', 'impl': tr.get('leftover_tasks'), 'model': end}
+    left = sorted(x[1] for x in tr.get('leftover_tasks', []) if x[0] == rid)
+    if tr['verdict'] == 'finished' and left != sorted(end.get('not_done', [])):
+        return {'at': len(evs), 'why': 'leftover tasks differ', 'impl': left, 'model': end}
     return None
 
 
 def lockstep_many(traces):
-    """returns list of divergences (None = agree), one per trace; one driver process"""
+    """returns list of divergences (None = agree), one per trace; one driver process.
+    A trace with several overlapping runs is split: every run is replayed on its own fresh model instance."""
     all_lines, spans = [], []
-    for tr in traces:
-        lines, evs = trace_lines(tr)
-        spans.append((len(all_lines), len(lines)))
-        all_lines += lines
+    for ti, tr in enumerate(traces):
+        for rid in range(max(1, len(tr.get('results') or [1]))):
+            lines, evs = trace_lines(tr, rid)
+            spans.append((ti, rid, len(all_lines), len(lines)))
+            all_lines += lines
     out = C.run_driver(['eng'], all_lines)
-    res = []
-    for tr, (start, n) in zip(traces, spans):
-        res.append(compare(tr, out[start + 2: start + n]))
+    res = [None] * len(traces)
+    for ti, rid, start, n in spans:
+        d = compare(traces[ti], out[start + 2: start + n], rid)
+        if d and res[ti] is None:
+            d['run'] = rid
+            res[ti] = d
     return res
